@@ -470,6 +470,9 @@ impl Check for C13 {
         ] {
             cases.push(Case::new(src.to_string(), T_REF, "targets or literal items that read what is being bound".to_string()));
         }
+        for prog in super::evalorder::SELF_TARGET_PROGRAMS {
+            cases.push(Case::new(prog.to_string(), T_REF, "targets, indices or bounds that reach the container being assigned".to_string()));
+        }
         let total = cases.len();
         let mut n_ok = 0;
         let mut n_err = 0;
